@@ -191,6 +191,22 @@ let op_file_url = function
       "OK\t" ^ hex_of_text (Links.file_url (text_of_hex fmt) (text_of_hex path) None ln)
   | _ -> "BADARGS"
 
+(* blame_blank mode n is_repeat line : is the line-number field left blank? mode = block | every | on *)
+let op_blame_blank = function
+  | [ mode; n; r; l ] ->
+      let m = match mode with
+        | "block" -> BlameNumbers.PerBlock
+        | "every" -> BlameNumbers.Every (n_of_int (int_of_string n))
+        | _ -> BlameNumbers.On in
+      if GenBlameNumbers.code_blank m (r = "1") (n_of_int (int_of_string l)) then "1" else "0"
+  | _ -> "BADARGS"
+
+(* differ_use_git major minor minus_is_pipe plus_is_pipe *)
+let op_differ_use_git = function
+  | [ a; b; pm; pp ] ->
+      if GenDiffer.code_use_git (n_of_int (int_of_string a), n_of_int (int_of_string b)) (pm = "1") (pp = "1") then "1" else "0"
+  | _ -> "BADARGS"
+
 (* ---- styles (C12, C09) *)
 let color_of_string w =
   if w = "normal" || w = "-" then None
@@ -573,6 +589,8 @@ let dispatch = function
   | "ingest" :: args -> op_ingest args
   | "submodule_run" :: args -> op_submodule_run args
   | "file_url" :: args -> op_file_url args
+  | "blame_blank" :: args -> op_blame_blank args
+  | "differ_use_git" :: args -> op_differ_use_git args
   | "blame_run" :: args -> op_blame_run args
   | "blame_spec" :: args -> op_blame_spec args
   | "ping" :: _ -> "pong"
